@@ -82,8 +82,8 @@ var dstKinds = []int{kRGBA64, kRGBA, kNRGBA, kNRGBA64}
 
 func parallelismOf(t *tape.Tape, rows int) int {
 	over := rows + 5 // more workers than rows
-	if over > 70 {
-		over = 64 // long images: the simulator's task table holds 512 tasks
+	if over > 300 {
+		over = 300 // long images: the simulator's task table holds 512 tasks
 	}
 	return [...]int{1, 2, 3, 7, 16, over}[t.Intn(6)]
 }
